@@ -145,6 +145,10 @@ func genC14(g *Gen) error {
 	if err := t.Method("lib/util/lifted/influx/meta/shardinfo.go", "ShardGroupInfo.Overlaps", "groupOverlaps", "(startTime endTime tmin tmax : Int)", "Bool"); err != nil {
 		return err
 	}
+	// index side (c14ix.go): IndexBuilder.SetDuration / Expired / ExpiredCache / IsTierExpired, shard.IsTierExpired
+	if err := c14IxDefs(g, t); err != nil {
+		return err
+	}
 	g.P("end OG.C14\n")
 
 	// --- shapes the hand-written model transcribes ------------------------------------
@@ -209,6 +213,9 @@ func genC14(g *Gen) error {
 		return true
 	})
 	g.StrList("durationInfos_assign", durAssign)
+	if err := c14IxShapes(g); err != nil {
+		return err
+	}
 	g.Footer()
 	return nil
 }
